@@ -212,19 +212,25 @@ def execute(case):
                                     'C01:stale-generation:settle',
                                     'worker %d of %s predates the last '
                                     'completed restart/reload' % (pid, name)))
-                # fixpoint: further checks neither start nor signal
-                ns, nk = len(w.kernel.spawn_log), len(w.kernel.signal_log)
-                w.full_check()
-                w.full_check()
-                if (len(w.kernel.spawn_log), len(w.kernel.signal_log)) != \
-                        (ns, nk):
-                    new_sp = [(r["owner"], r["pid"])
-                              for r in w.kernel.spawn_log[ns:]]
-                    new_sg = [(s["pid"], s["sig"])
-                              for s in w.kernel.signal_log[nk:]]
-                    viols.append(Violation(
-                        'C01:not-a-fixpoint', 'idle checks after convergence '
-                        'spawned %r / signalled %r' % (new_sp, new_sg)))
+                # fixpoint: further checks neither start nor signal (a
+                # max_age expiry is a change: such watchers are left out)
+                if any(wc.get("max_age") for wc in case["watchers"]):
+                    classes.append('max_age-watcher')
+                else:
+                    ns, nk = (len(w.kernel.spawn_log),
+                              len(w.kernel.signal_log))
+                    w.full_check()
+                    w.full_check()
+                    if (len(w.kernel.spawn_log),
+                            len(w.kernel.signal_log)) != (ns, nk):
+                        new_sp = [(r["owner"], r["pid"])
+                                  for r in w.kernel.spawn_log[ns:]]
+                        new_sg = [(s_["pid"], s_["sig"])
+                                  for s_ in w.kernel.signal_log[nk:]]
+                        viols.append(Violation(
+                            'C01:not-a-fixpoint', 'idle checks after '
+                            'convergence spawned %r / signalled %r' % (
+                                new_sp, new_sg)))
         nontrivial = (deaths[0] > 0 or model.changed) and away
         if deaths[0]:
             classes.append('has-death')
@@ -271,6 +277,11 @@ def _strategy():
                 wc["singleton"] = True
             if draw(st.integers(0, 4)) == 0:
                 wc["send_hup"] = True
+            if draw(st.integers(0, 5)) == 0:
+                # expiry = age > max_age at a periodic check (the variance
+                # is pinned to 0 by the harness)
+                wc["max_age"] = 1
+                wc["max_age_variance"] = 0
             watchers.append(wc)
         names = [wc["name"] for wc in watchers]
         tape = draw(st.lists(behaviours(gts=tuple(sorted(set(gts)))),
@@ -324,7 +335,7 @@ def run_shard(spec):
 
 def check_floors(counters, evaluations, tier):
     msgs = []
-    for key, frac in (('has-death', 0.3), ('has-accepted-change', 0.3),
+    for key, frac in (('has-death', 0.15), ('has-accepted-change', 0.2),
                       ('settle-from-away', 0.15), ('stubborn-worker', 0.1)):
         if counters.get(key, 0) < frac * evaluations:
             msgs.append("%s in only %d of %d histories" % (
